@@ -1020,3 +1020,96 @@ def r_twins(db, rep):
             rep.viol("%s<->%s#diverge" % (a, b), fa.loc,
                      "%s and %s no longer have the same structure (first difference at token %d: %s vs %s): values encoded by one copy are not "
                      "decoded alike by the other, or one copy lost a fix" % (a, b, i, sa[i:i + 4], sb_[i:i + 4]), fa.qn)
+
+
+@rule("R-SCANEXIT", 10, "sibling agreement of the five front-coding kinds: every in-bucket scan (locate, searchPrefix) leaves its loop as "
+                        "soon as the decoded string shares less with its predecessor than the query shares with the current candidate "
+                        "(`shared-with-previous < shared-with-query -> stop`); without it a later string that merely repeats the tail can match")
+def r_scanexit(db, rep):
+    for k in FC_KINDS:
+        for opn in ("locate", "searchPrefix"):
+            f = method(db, k, opn)
+            rep.visit(f)
+            # the accumulator passed by address to longestCommonPrefix, and the loop around such a call
+            acc = None
+            for n in f.calls():
+                if callee_name(n) == "longestCommonPrefix" and len(n.get("args", [])) >= 4:
+                    a = strip(n["args"][3])
+                    if a["k"] == "UnaryOperator" and a["op"] == "&":
+                        acc = access_path(f, a["sub"])
+            loops = [n for n in f.live_nodes() if n["k"] in ("ForStmt", "WhileStmt", "DoStmt") and
+                     any(x["k"] == "CallExpr" and callee_name(x) == "longestCommonPrefix" for x in walk(n["body"]))]
+            if acc is None or not loops:
+                raise AnalysisBroken("%s: scan loop with longestCommonPrefix not found" % f.qn)
+            for lp in loops:
+                rep.inst(f.nloc(lp), "%s: in-bucket scan loop" % f.qn)
+                rep.ob()
+                ok = False
+                for n in walk(lp["body"]):
+                    if n["k"] == "IfStmt" and n.get("cond") is not None:
+                        c = strip(n["cond"])
+                        if c["k"] == "BinaryOperator" and c["op"] in ("<", ">"):
+                            l, r = access_path(f, c["lhs"]), access_path(f, c["rhs"])
+                            small, big = (l, r) if c["op"] == "<" else (r, l)
+                            if big == acc and small is not None and small != acc and small[0] == "local":
+                                th = n["then"]
+                                leaves = any(x["k"] in ("BreakStmt", "ReturnStmt") for x in walk(th))
+                                if leaves:
+                                    ok = True
+                if not ok:
+                    rep.viol("%s#scan-without-early-exit" % f.qn, f.nloc(lp),
+                             "%s scans a bucket without the `shared-with-previous < shared-with-query -> stop` exit its siblings have: a string "
+                             "further down the bucket whose suffix happens to equal the query's tail is accepted (false positive)" % f.qn, f.qn)
+
+
+@rule("R-SAMPLECOUNT", 4, "FM-index suffix samples: the allocation, the save, the load and the dictionary's position->ID conversion loop all "
+                          "use the same count (n+1)/step+1")
+def r_samplecount(db, rep):
+    sites = []
+    bw = db.fn("SSA::build_bwt")
+    sv = db.fn("SSA::save")
+    ld = db.fn("SSA::load")
+    bs = db.fn("StringDictionaryFMINDEX::build_ssa")
+
+    def norm(f, e, nmap):
+        sbx = SeqBuilder(db, f, "c", nosubst=True)
+        for x in walk(e):
+            p = access_path(f, x) if x["k"] in ("DeclRefExpr", "MemberExpr") else None
+            if p is not None and p[-1] in nmap:
+                sbx.env[p] = ("global", nmap[p[-1]])
+            elif p is not None and x["k"] == "DeclRefExpr" and x.get("n") in nmap:
+                sbx.env[p] = ("global", nmap[x["n"]])
+        return canon(sbx.sym(e))
+    # allocation in build_bwt
+    for lv, w in written_lvalues(bw):
+        if access_path(bw, lv) == ("this", "suff_sample") and w.get("rhs") is not None and strip(w["rhs"])["k"] == "CXXNewExpr":
+            sites.append((bw, w, norm(bw, strip(w["rhs"])["size"], {"n": "N", "samplesuff": "S"}), "allocation"))
+    for f, role in ((sv, "save"), (ld, "load")):
+        for n in f.calls():
+            if callee_name(n) in ("saveValue", "loadValue"):
+                args = n.get("args", [])
+                if role == "save" and len(args) == 3 and access_path(f, args[1]) == ("this", "suff_sample"):
+                    sites.append((f, n, norm(f, args[2], {"n": "N", "samplesuff": "S"}), role))
+                if role == "load" and len(args) == 2:
+                    par = f.parent(n)
+                    while par is not None and not is_assignment(par):
+                        par = f.parent(par)
+                    if par is not None and access_path(f, par["lhs"]) and access_path(f, par["lhs"])[-1] == "suff_sample":
+                        sites.append((f, n, norm(f, args[1], {"n": "N", "samplesuff": "S"}), role))
+    # conversion loop bound in build_ssa: local `samples`
+    for n in bs.live_nodes():
+        if n["k"] == "DeclStmt":
+            for d in n["decls"]:
+                if d.get("n") == "samples" and d.get("init") is not None:
+                    sites.append((bs, n, norm(bs, d["init"], {"len": "N", "BWTsampling": "S"}), "conversion loop"))
+    if len(sites) < 4:
+        raise AnalysisBroken("R-SAMPLECOUNT: expected 4 sample-count sites, found %d" % len(sites))
+    ref = sites[0][2]
+    for f, n, c, role in sites:
+        rep.visit(f)
+        rep.inst(f.nloc(n), "%s (%s): %s" % (f.qn, role, c))
+        rep.ob()
+        if c != ref:
+            rep.viol("%s#sample-count-%s" % (f.qn, role.replace(" ", "-")), f.nloc(n),
+                     "%s uses %s samples in its %s where SSA::build_bwt allocates %s: entries are left unconverted / read past / not saved" % (
+                         f.qn, c, role, ref), f.qn)
